@@ -397,6 +397,8 @@ Inductive event :=
 (* reject reasons (reported by the acceptor) *)
 Definition R_PC : N := 100.         (* the event is not the next sub-step of its program *)
 Definition R_ENV : N := 101.        (* a Ready the raft library is assumed not to produce *)
+Definition R_OUT : N := 107.        (* a step of the code that the model does not follow: the run is outside the model
+                                       (its correspondence is not established; counted in the evidence) *)
 Definition R_ARG : N := 102.        (* the event carries a value the model does not predict *)
 Definition R_GUARD : N := 103.      (* ordering guard of the code violated *)
 Definition R_ENGINE : N := 104.     (* engine used while its content is untrusted *)
@@ -575,7 +577,7 @@ Definition step (c : config) (s : state) (ev : event) : result state :=
       (* a Save without entries and without a hard state returns before it could cut *)
       if negb ((0 <? r_n r) || r_hs r) then Err R_GUARD
       (* not followed: the segment is cut between the record of an incoming snapshot and the hard state that makes it valid *)
-      else if 0 <? r_snap r then Err R_ENV
+      else if 0 <? r_snap r then Err R_OUT
       else if negb (idx =? last_entry (all_recs (segs s1)) + 1) then Err R_ARG
       else Ok (s1 <| set_unflushed := 0%nat |> <| set_unsynced := if opt_fsync c then unsynced s1 else 0%nat |>
                   <| set_rdp := RdCutting r p idx |>)
@@ -738,13 +740,13 @@ Definition step (c : config) (s : state) (ev : event) : result state :=
     end
   | EvFsCopy i =>
     (* the directory exists (wholly or partly), still marked incomplete *)
-    if fs_clash s i then Err R_ENV else
+    if fs_clash s i then Err R_OUT else
     match lookup i (ckpts s) with
     | None => if 0 <? i then Ok (s <| set_ckpts := (i, None) :: remove_ckpt i (ckpts s) |>) else Err R_ARG
     | Some _ => Err R_GUARD
     end
   | EvFsComplete i =>
-    if fs_clash s i then Err R_ENV else
+    if fs_clash s i then Err R_OUT else
     if memN i (map fst (ckpts s))
     then match lookup i (ckpts s) with
          | None => Ok (s <| set_ckpts := (i, Some (range 0 i)) :: remove_ckpt i (ckpts s) |>)
@@ -847,7 +849,7 @@ Definition step (c : config) (s : state) (ev : event) : result state :=
   | EvSnCreated i => sn_step s i SnCkDone SnCreated (fun x => x)
   | EvSnFile i =>
     (* not followed: a local snapshot at exactly the index of an incoming snapshot whose record was left invalid by a crash *)
-    if memN i (unvalidated (all_recs (segs s))) then Err R_ENV
+    if memN i (unvalidated (all_recs (segs s))) then Err R_OUT
     else sn_step s i SnCreated SnFile (fun x => x <| set_snapfiles := i :: removeN i (snapfiles x) |>)
   | EvSnMarked i =>
     sn_step s i SnFile SnMarked
